@@ -31,6 +31,8 @@ import PercevalModel.Lemmas.C04Mass
 import PercevalModel.Lemmas.C04Det
 import PercevalModel.Lemmas.C04Evolve
 import PercevalModel.Lemmas.C04More
+import PercevalModel.Lemmas.C04Trim
+import PercevalModel.Lemmas.C04Session
 import PercevalModel.Props.C02
 
 namespace PM.C04
@@ -1061,6 +1063,272 @@ example : declareHeralds 4 [(2, 0), (1, 1)] = some [(2, 0), (1, 1)] ∧ declareH
 
 example : HeraldsWF 4 [(2, 0), (1, 1)] := (heralds_wf_of_declared 4 [(2, 0), (1, 1)] _ (by decide)).1
 
+
+/-! ### probability trimming at a non-zero precision (`Model/C04Trim.lean`)
+
+`probsSvdθ eng P c members` is `probs_svd` with the two thresholds of the fast path as they are coded:
+`_preprocess_svd` drops the members that pass the photon filter with a weight not above
+`p_threshold = max(min_p, max_p · precision)`, and every member's product of (masked) group distributions is
+`list_tensor_product(…, prob_threshold = p_threshold / (10 · weight))`.  The statements: trimming only *drops* entries
+of the accumulated list (`trim_only_drops`); `physical_perf` is unaffected — the code subtracts only the members below
+the photon filter — hence exactly the specification's (`physical_perf_trim_exact`); `logical_perf` is never above the
+specification's and below it by at most `trimmed mass / physical_perf` (`logical_perf_trim_bound`); every reported
+probability is within `trimmed retained mass / retained mass` of the specification's conditioned distribution
+(`results_trim_bound`), the trimmed retained mass being at most the trimmed mass. -/
+
+/-- **trim_only_drops.**  The list accumulated under the thresholds is a sublist of the one accumulated without:
+the same entries with the same values in the same order, some of them missing. -/
+theorem trim_only_drops (eng : Fock → D) (P : Prec) (c : Cfg) (members : List Member) (he : EngOK eng c.m members) :
+    (codeResθ eng P c members).Sublist (codeRes eng c members) :=
+  codeResθ_sublist eng P c members (fun mb hmb s hs q hq => (he.shape mb hmb s hs q hq).1)
+
+/-- the trimmed mass and its accepted part: `0 ≤ trimmedRetained ≤ trimmedMass` -/
+theorem trimmed_retained_le_trimmed (eng : Fock → D) (P : Prec) (c : Cfg) (members : List Member)
+    (he : EngOK eng c.m members) (hmix : MixOK members) :
+    0 ≤ trimmedRetained eng P c members ∧ trimmedRetained eng P c members ≤ trimmedMass eng P c members :=
+  sublist_mass_restrict (trim_only_drops eng P c members he) (NN_codeRes eng c members he.nonneg hmix.wpos) _
+
+/-- **physical_perf_trim_exact.**  At any precision the reported physical performance is exactly the probability
+that the unconditioned output passes the photon filter: the members dropped by the relative threshold pass the
+filter, and the code subtracts only those that do not. -/
+theorem physical_perf_trim_exact (eng : Fock → D) (P : Prec) (c : Cfg) (members : List Member)
+    (he : EngOK eng c.m members) (hmix : MixOK members) :
+    (probsSvdθ eng P c members).phys = physPerf (cond c) (full eng c.m members) := by
+  rw [← physical_perf_spec eng c members he hmix, probsSvd_eq_finish, probsSvdθ, finishSvd_phys, finishSvd_phys]
+
+/-- **logical_perf_trim_bound.**  The logical performance computed under the thresholds never exceeds the
+specification's P(heralds ∧ post-selection | filter passed) and falls short of it by at most the accepted part of the
+trimmed mass (hence at most the trimmed mass) divided by the physical performance. -/
+theorem logical_perf_trim_bound (eng : Fock → D) (P : Prec) (c : Cfg) (members : List Member)
+    (wf : HeraldsWF c.m c.heralds) (he : EngOK eng c.m members) (hmix : MixOK members) :
+    (probsSvdθ eng P c members).logical ≤ logicalPerf (cond c) (full eng c.m members) ∧
+    logicalPerf (cond c) (full eng c.m members) - (probsSvdθ eng P c members).logical =
+      trimmedRetained eng P c members / physPerf (cond c) (full eng c.m members) ∧
+    trimmedRetained eng P c members / physPerf (cond c) (full eng c.m members) ≤
+      trimmedMass eng P c members / physPerf (cond c) (full eng c.m members) := by
+  have hsub := trim_only_drops eng P c members he
+  have hNN := NN_codeRes eng c members he.nonneg hmix.wpos
+  have hNNθ : NN (codeResθ eng P c members) := NN.of_sublist hsub hNN
+  have hle := sublist_mass_le hsub hNN
+  have hpos : mass (codeRes eng c members) ≠ 0 → 0 < physInputs c members :=
+    physInputs_pos_of_mass eng c members hmix
+  have hposθ : mass (codeResθ eng P c members) ≠ 0 → 0 < physInputs c members := by
+    intro h
+    apply hpos
+    intro h0
+    have := hNNθ.mass_nonneg
+    apply h
+    linarith
+  have hphys : physPerf (cond c) (full eng c.m members) = physInputs c members := by
+    rw [← physical_perf_spec eng c members he hmix, probsSvd_eq_finish, finishSvd_phys]
+  have hex : logicalPerf (cond c) (full eng c.m members) =
+      mass (restrict (logicOk (cond c)) (codeRes eng c members)) / physInputs c members := by
+    rw [← logical_perf_spec eng c members wf he hmix, probsSvd_eq_finish, finishSvd_logical c _ _ hNN hpos]
+  have hθ : (probsSvdθ eng P c members).logical =
+      mass (restrict (logicOk (cond c)) (codeResθ eng P c members)) / physInputs c members := by
+    rw [probsSvdθ, finishSvd_logical c _ _ hNNθ hposθ]
+  obtain ⟨h0, h1⟩ := trimmed_retained_le_trimmed eng P c members he hmix
+  have hP0 : 0 ≤ physInputs c members := by
+    rw [physInputs_eq c members hmix.wsum]
+    apply List.sum_nonneg
+    intro x hx
+    obtain ⟨mb, hmb, rfl⟩ := List.mem_map.1 hx
+    exact hmix.wpos mb (mem_kept hmb)
+  have hdiff : logicalPerf (cond c) (full eng c.m members) - (probsSvdθ eng P c members).logical =
+      trimmedRetained eng P c members / physInputs c members := by
+    rw [hex, hθ, ← sub_div]
+    rfl
+  refine ⟨?_, ?_, ?_⟩
+  · have : 0 ≤ trimmedRetained eng P c members / physInputs c members := div_nonneg h0 hP0
+    linarith
+  · rw [hphys, hdiff]
+  · rw [hphys]
+    exact div_le_div_of_nonneg_right h1 hP0
+
+/-- **results_trim_bound.**  Whenever the trimmed computation retains something, every probability it reports is
+within `trimmed retained mass / retained mass` (≤ `trimmed mass / retained mass`) of the specification's conditioned
+distribution — for every outcome `t`, reported or not. -/
+theorem results_trim_bound (eng : Fock → D) (P : Prec) (c : Cfg) (members : List Member)
+    (wf : HeraldsWF c.m c.heralds) (he : EngOK eng c.m members) (hmix : MixOK members)
+    (hret : mass (restrict (logicOk (cond c)) (codeResθ eng P c members)) ≠ 0) (t : Fock) :
+    |get (probsSvdθ eng P c members).results t - get (conditioned (cond c) (full eng c.m members)) t| ≤
+      trimmedRetained eng P c members / mass (retained (cond c) (full eng c.m members)) ∧
+    trimmedRetained eng P c members / mass (retained (cond c) (full eng c.m members)) ≤
+      trimmedMass eng P c members / mass (retained (cond c) (full eng c.m members)) := by
+  have hsub := trim_only_drops eng P c members he
+  have hNN := NN_codeRes eng c members he.nonneg hmix.wpos
+  have hNNθ : NN (codeResθ eng P c members) := NN.of_sublist hsub hNN
+  have hR := retained_eq eng c members wf he.shape
+  have hA : (mapKeys (reported (cond c)) (restrict (logicOk (cond c)) (codeResθ eng P c members))).Sublist
+      (mapKeys (reported (cond c)) (restrict (logicOk (cond c)) (codeRes eng c members))) :=
+    mapKeys_sublist _ (restrict_sublist _ hsub)
+  have hAnn : NN (mapKeys (reported (cond c)) (restrict (logicOk (cond c)) (codeRes eng c members))) := by
+    intro p hp
+    simp only [mapKeys, List.mem_map] at hp
+    obtain ⟨q, hq, rfl⟩ := hp
+    exact hNN q (mem_restrict hq)
+  have hb := normalized_get_bound hA hAnn (by rwa [mass_mapKeys]) t
+  rw [mass_mapKeys, mass_mapKeys] at hb
+  obtain ⟨h0, h1⟩ := trimmed_retained_le_trimmed eng P c members he hmix
+  have hRpos : 0 ≤ mass (restrict (logicOk (cond c)) (codeRes eng c members)) := (hNN.restrict _).mass_nonneg
+  constructor
+  · rw [probsSvdθ, finishSvd_results c _ _ hNNθ hret, conditioned, hR]
+    exact hb
+  · rw [hR]
+    exact div_le_div_of_nonneg_right h1 hRpos
+
+/-- in particular, with nothing trimmed the three outputs are the specification's -/
+theorem trim_nothing_exact (eng : Fock → D) (P : Prec) (c : Cfg) (members : List Member)
+    (wf : HeraldsWF c.m c.heralds) (he : EngOK eng c.m members) (hmix : MixOK members)
+    (h0 : trimmedMass eng P c members = 0) :
+    (probsSvdθ eng P c members).logical = logicalPerf (cond c) (full eng c.m members) ∧
+    (mass (restrict (logicOk (cond c)) (codeResθ eng P c members)) ≠ 0 → ∀ t,
+      get (probsSvdθ eng P c members).results t = get (conditioned (cond c) (full eng c.m members)) t) := by
+  obtain ⟨a0, a1⟩ := trimmed_retained_le_trimmed eng P c members he hmix
+  have hr : trimmedRetained eng P c members = 0 := by linarith
+  constructor
+  · have := (logical_perf_trim_bound eng P c members wf he hmix).2.1
+    rw [hr, zero_div] at this
+    linarith
+  · intro hret t
+    have := (results_trim_bound eng P c members wf he hmix hret t).1
+    rw [hr, zero_div] at this
+    have h2 := abs_nonneg (get (probsSvdθ eng P c members).results t - get (conditioned (cond c) (full eng c.m members)) t)
+    have h3 : |get (probsSvdθ eng P c members).results t - get (conditioned (cond c) (full eng c.m members)) t| = 0 :=
+      le_antisymm this h2
+    have := abs_eq_zero.1 h3
+    linarith
+
+/-! non-vacuity: `exCfg`, `exMembers`, identity engine, precision 3/5 (`exPrec`): the threshold is 3/10, the member
+of weight 1/4 with two tag groups — which passes the photon filter and the heralds — is dropped: the trimmed mass is
+1/4, all of it would have been retained; physical performance 3/4 (exact), logical performance 2/3 instead of 1. -/
+
+example : trimmedMass idEng exPrec exCfg exMembers = 1 / 4 ∧ trimmedRetained idEng exPrec exCfg exMembers = 1 / 4 ∧
+    mass (restrict (logicOk (cond exCfg)) (codeResθ idEng exPrec exCfg exMembers)) ≠ 0 := by
+  decide +kernel
+
+example : (probsSvdθ idEng exPrec exCfg exMembers).phys = 3 / 4 ∧
+    (probsSvdθ idEng exPrec exCfg exMembers).logical = 2 / 3 := by
+  decide +kernel
+
+example : (probsSvdθ idEng exPrec exCfg exMembers).phys = physPerf (cond exCfg) (full idEng exCfg.m exMembers) :=
+  physical_perf_trim_exact idEng exPrec exCfg exMembers exEng exMix
+
+example : logicalPerf (cond exCfg) (full idEng exCfg.m exMembers) - (probsSvdθ idEng exPrec exCfg exMembers).logical =
+    trimmedRetained idEng exPrec exCfg exMembers / physPerf (cond exCfg) (full idEng exCfg.m exMembers) :=
+  (logical_perf_trim_bound idEng exPrec exCfg exMembers exWF exEng exMix).2.1
+
+example (t : Fock) : |get (probsSvdθ idEng exPrec exCfg exMembers).results t -
+      get (conditioned (cond exCfg) (full idEng exCfg.m exMembers)) t| ≤
+    trimmedRetained idEng exPrec exCfg exMembers / mass (retained (cond exCfg) (full idEng exCfg.m exMembers)) :=
+  (results_trim_bound idEng exPrec exCfg exMembers exWF exEng exMix (by decide +kernel) t).1
+
+example : (codeResθ idEng exPrec exCfg exMembers).Sublist (codeRes idEng exCfg exMembers) :=
+  trim_only_drops idEng exPrec exCfg exMembers exEng
+
+/-! ### a long-lived `Simulator` / `Processor` whose selection changes (`Model/C04Session.lean`)
+
+State machines with the real fields: `_heralds`, the separate `_n_heralds`, `_postselect`, the photon filter,
+`_keep_heralds`, `_can_use_mask`, the mask left on the backend (concretely), the walk of `_probs_svd_fast` over the
+`(group, budget)` keys sorted by budget with `use_mask` called when the budget changes; for the processor the kept
+simulator, built from the heralds and post-selection of that moment and dropped by `_circuit_changed`.  Statement:
+after ANY history of selection changes and queries, a query answers exactly what the stateless model `probsSvdDet`
+gives for the selection set last — so every theorem above applies to the long-lived object. -/
+
+/-- `_n_heralds` (read by `_best_n`) is the photon sum of `_heralds` (read by the photon filter) after every history -/
+theorem simulator_n_heralds_invariant (eng : Fock → D) (m : ℕ) (ops : List SimOp) :
+    (SM.exec (simStep eng m) SimSt.init ops).nHer = nHeralds (SM.exec (simStep eng m) SimSt.init ops).heralds :=
+  SM.inv_exec _ (fun s => s.nHer = nHeralds s.heralds) (fun s op h => simStep_nHer eng m s op h) _ rfl ops
+
+/-- **simulator_selection_history_independent.**  `probs_svd` on a simulator that went through any history of
+`set_selection` / `set_heralds` / `clear_heralds` / `set_postselection` / `clear_postselection` / filter /
+`keep_heralds` changes and earlier `probs_svd` calls (any detectors, any inputs: masks left on the backend, mask mode
+switched on and off) returns what the stateless model returns for the selection in force. -/
+theorem simulator_selection_history_independent (eng : Fock → D) (m : ℕ) (ops : List SimOp) (ds : List Det)
+    (members : List Member) :
+    (simStep eng m (SM.exec (simStep eng m) SimSt.init ops) (.probsSvd ds members)).2 =
+      .res (probsSvdDet eng ((SM.exec (simStep eng m) SimSt.init ops).cfg m) ds members) := by
+  show SimOut.res _ = _
+  rw [simProbs_out _ _ _ _ _ (simulator_n_heralds_invariant eng m ops)]
+
+/-- two histories that end with the same selection answer every query alike -/
+theorem simulator_same_selection_same_answer (eng : Fock → D) (m : ℕ) (h₁ h₂ : List SimOp) (ds : List Det)
+    (members : List Member)
+    (hc : (SM.exec (simStep eng m) SimSt.init h₁).selection = (SM.exec (simStep eng m) SimSt.init h₂).selection) :
+    (simStep eng m (SM.exec (simStep eng m) SimSt.init h₁) (.probsSvd ds members)).2 =
+      (simStep eng m (SM.exec (simStep eng m) SimSt.init h₂) (.probsSvd ds members)).2 := by
+  rw [simulator_selection_history_independent, simulator_selection_history_independent]
+  have : (SM.exec (simStep eng m) SimSt.init h₁).cfg m = (SM.exec (simStep eng m) SimSt.init h₂).cfg m := by
+    simp only [SimSt.selection, Prod.mk.injEq] at hc
+    simp only [SimSt.cfg, hc]
+  rw [this]
+
+/-- **simulator_session_condition_spec.**  …hence, after any history, the three outputs are the conditioning of the
+distribution of detected patterns by the heralds, post-selection and filter set last (`condition_spec_detectors`). -/
+theorem simulator_session_condition_spec (eng : Fock → D) (m : ℕ) (ops : List SimOp) (ds : List Det)
+    (members : List Member) (N : ℕ) (hl : ds = [] ∨ ds.length = m)
+    (wf : HeraldsWF m (SM.exec (simStep eng m) SimSt.init ops).heralds) (he : EngOK eng m members)
+    (hmix : MixOK members) (hN : ∀ mb ∈ members, mb.n ≤ N) (hK : KernsOK N (ds.map Det.kern))
+    (hret : mass (retained (cond ((SM.exec (simStep eng m) SimSt.init ops).cfg m))
+      (detectedFull eng m ds members)) ≠ 0) :
+    ∃ o, (simStep eng m (SM.exec (simStep eng m) SimSt.init ops) (.probsSvd ds members)).2 = .res o ∧
+      o.results = conditioned (cond ((SM.exec (simStep eng m) SimSt.init ops).cfg m)) (detectedFull eng m ds members) ∧
+      o.phys = physPerf (cond ((SM.exec (simStep eng m) SimSt.init ops).cfg m)) (detectedFull eng m ds members) ∧
+      o.logical = logicalPerf (cond ((SM.exec (simStep eng m) SimSt.init ops).cfg m)) (detectedFull eng m ds members) :=
+  ⟨_, simulator_selection_history_independent eng m ops ds members,
+    condition_spec_detectors eng ((SM.exec (simStep eng m) SimSt.init ops).cfg m) ds members N hl wf he hmix hN hK hret⟩
+
+/-- the kept simulator of a processor was built for the current heralds and post-selection, after every history -/
+theorem processor_kept_simulator_current (eng : Fock → D) (m : ℕ) (ops : List ProcOp) :
+    ProcInv (SM.exec (procStep true eng m) ProcSt.init ops) :=
+  SM.inv_exec _ ProcInv (fun p op h => procStep_inv eng m p op h) _ procInv_init ops
+
+/-- **processor_selection_history_independent.**  `Processor.probs()` after any history of `add_herald`, detector
+changes, `set_postselection` / `clear_postselection`, filter changes and earlier `probs()` calls (kept simulator,
+stored automatic filter) returns what the stateless model returns for the heralds, post-selection, detectors and
+filter in force (`ValueError` when no filter is set and none can be derived). -/
+theorem processor_selection_history_independent (eng : Fock → D) (m : ℕ) (ops : List ProcOp)
+    (members : List Member) (autoN : Option ℕ) :
+    (procStep true eng m (SM.exec (procStep true eng m) ProcSt.init ops) (.probs members autoN)).2 =
+      match (SM.exec (procStep true eng m) ProcSt.init ops).filter.or autoN with
+      | none => .exc "ValueError"
+      | some f => .res (probsSvdDet eng ((SM.exec (procStep true eng m) ProcSt.init ops).cfg m f)
+          (SM.exec (procStep true eng m) ProcSt.init ops).dets members) :=
+  procProbs_out eng m _ members autoN (processor_kept_simulator_current eng m ops)
+
+/-! non-vacuity / regression witnesses.  Two different simulator histories (a query with other heralds and a
+threshold detector in between, the post-selection set and cleared) ending with the same selection; and the reason
+`clear_postselection` must notify: in the variant that does not (`procStep false`), the kept simulator of the
+processor keeps the old post-selection — the invariant fails and the stale condition is applied. -/
+
+example : (SM.exec (simStep idEng 2) SimSt.init
+      [.setSelection (some 1) none (some [(0, 1)]), .setPostselection (.cond [1] .ge 1),
+       .probsSvd [.thr, .none] [⟨1, [[1, 1]]⟩], .clearPostselection, .setHeralds [(1, 0)], .setFilter 0]).selection =
+    (SM.exec (simStep idEng 2) SimSt.init [.setSelection (some 0) none (some [(1, 0)])]).selection := by
+  rfl
+
+/-- the session used by the witnesses: a post-selection `[0] >= 1` is set, `probs()` is called, the post-selection is
+cleared -/
+def staleOps : List ProcOp :=
+  [.setFilter 0, .setPostselection (.cond [0] .ge 1), .probs [⟨1, [[0, 1]]⟩] none, .clearPostselection]
+
+example : ((SM.exec (procStep false idEng 2) ProcSt.init staleOps).sim.map (·.ps.eval [0, 1])) = some false ∧
+    (SM.exec (procStep false idEng 2) ProcSt.init staleOps).ps.isNone = true ∧
+    (SM.exec (procStep true idEng 2) ProcSt.init staleOps).sim.isNone = true := by
+  decide +kernel
+
+example : (procStep true idEng 2 (SM.exec (procStep true idEng 2) ProcSt.init staleOps)
+      (.probs [⟨1, [[0, 1]]⟩] none)).2 =
+    .res (probsSvdDet idEng { m := 2, heralds := [], ps := .tt, userFilter := 0, keepHeralds := false, pnr := true }
+      [] [⟨1, [[0, 1]]⟩]) := by
+  rw [processor_selection_history_independent]
+  have h1 : (SM.exec (procStep true idEng 2) ProcSt.init staleOps).filter = some 0 := by decide +kernel
+  have h2 : (SM.exec (procStep true idEng 2) ProcSt.init staleOps).heralds = [] := by decide +kernel
+  have h3 : (SM.exec (procStep true idEng 2) ProcSt.init staleOps).ps.isNone = true := by decide +kernel
+  have h4 : (SM.exec (procStep true idEng 2) ProcSt.init staleOps).dets = [] := by decide +kernel
+  have h3' : (SM.exec (procStep true idEng 2) ProcSt.init staleOps).ps = none := by simpa using h3
+  simp only [h1, ProcSt.cfg, h2, h3', h4, Option.getD_none]
+  rfl
 
 /-! ### what is still NOT a theorem
 
